@@ -28,7 +28,42 @@ type Int struct {
 }
 
 type SymBool struct{ T *Term }
-type SymStr struct{ T *Term }
+
+// SymStr: a symbolic string.  B != nil: explicit bytes (concrete length,
+// symbolic characters; stays in bit-vector logic).  Otherwise T is a term of
+// sort Seq(BV8) (unknown length).
+type SymStr struct {
+	T *Term
+	B []Value
+}
+
+// strBytesOf returns the explicit bytes of a string value if it has any.
+func strBytesOf(v Value) ([]Value, bool) {
+	switch v := v.(type) {
+	case string:
+		out := make([]Value, len(v))
+		for i := 0; i < len(v); i++ {
+			out[i] = CInt(uint64(v[i]), 8)
+		}
+		return out, true
+	case SymStr:
+		if v.B != nil {
+			return v.B, true
+		}
+	}
+	return nil, false
+}
+
+// mkStrBytes makes a string value from explicit bytes.
+func mkStrBytes(bs []Value) Value {
+	if c, ok := concBytes(bs); ok {
+		return string(c)
+	}
+	cp := make([]Value, len(bs))
+	copy(cp, bs)
+	return SymStr{B: cp}
+}
+
 type OpaqueFloat struct{}
 type Complex struct{ C complex128 }
 
@@ -119,7 +154,14 @@ func strTerm(v Value) *Term {
 	case string:
 		return SeqOfString(v)
 	case SymStr:
-		return v.T
+		if v.T != nil {
+			return v.T
+		}
+		parts := make([]*Term, len(v.B))
+		for i, b := range v.B {
+			parts[i] = SeqUnit(b.(Int).Term())
+		}
+		return SeqConcat(parts...)
 	}
 	panic(fmt.Sprintf("strTerm: %T", v))
 }
@@ -315,9 +357,9 @@ func (ex *Exec) eqVal(t types.Type, x, y Value) Value {
 		if ys, ok := y.(string); ok {
 			return x == ys
 		}
-		return mkBool(Eq(strTerm(x), strTerm(y)))
+		return ex.strEq(x, y)
 	case SymStr:
-		return mkBool(Eq(x.T, strTerm(y)))
+		return ex.strEq(x, y)
 	case float64:
 		yf, ok := y.(float64)
 		if !ok {
@@ -405,6 +447,19 @@ func (ex *Exec) eqVal(t types.Type, x, y Value) Value {
 	panic(fmt.Sprintf("eqVal: unhandled %T (%v)", x, t))
 }
 
+func (ex *Exec) strEq(x, y Value) Value {
+	xb, xok := strBytesOf(x)
+	yb, yok := strBytesOf(y)
+	if xok && yok {
+		return ex.bytesEq(xb, yb)
+	}
+	if xok || yok {
+		// one side has a concrete length: compare length first (keeps the
+		// sequence solver out of the common mismatch case)
+	}
+	return mkBool(Eq(strTerm(x), strTerm(y)))
+}
+
 func (ex *Exec) andVal(a, b Value) Value {
 	if ab, ok := a.(bool); ok {
 		if !ab {
@@ -475,7 +530,11 @@ func writeVal(sb *strings.Builder, v Value, depth int) {
 	case string:
 		fmt.Fprintf(sb, "%q", v)
 	case SymStr:
-		fmt.Fprintf(sb, "‹str %s›", trunc(v.T.S, 40))
+		if v.B != nil {
+			fmt.Fprintf(sb, "‹str[%d]›", len(v.B))
+		} else {
+			fmt.Fprintf(sb, "‹str %s›", trunc(v.T.S, 40))
+		}
 	case float64:
 		fmt.Fprintf(sb, "%g", v)
 	case *Value:
